@@ -21,6 +21,8 @@ pub struct Flags {
     pub clone_ev: bool,
     /// perturb allocation addresses: keep a pseudo-random number of node-sized blocks alive per test
     pub shuffle: u64,
+    /// C18: enumerate panic injection points
+    pub faults: bool,
 }
 
 /// output that rotates to a new file at test boundaries (`<prefix>.<n>.ndjson`)
@@ -120,7 +122,8 @@ pub fn observe<K: KeyT, S: Sut<K>>(c: &S, uni: &[u64], fl: &Flags, ids: &mut Add
                 .collect();
             let mut idx = idx;
             idx.sort_by_key(|v| v[1].as_u64());
-            au.push(json!({"fwd": fwd, "bwd": bwd, "idx": idx, "closed": a.fwd_closed && a.bwd_closed,
+            let freed = a.fwd.iter().chain(a.bwd.iter()).chain(a.idx.iter().map(|p| &p.1)).filter(|&&x| crate::GLOBAL.is_quarantined(x)).count();
+            au.push(json!({"fwd": fwd, "bwd": bwd, "idx": idx, "closed": a.fwd_closed && a.bwd_closed, "freed_reachable": freed,
                            "len": a.len, "cap": a.cap, "head": ids.id(a.head), "tail": ids.id(a.tail)}));
         }
         m.insert("audit".into(), Value::Array(au));
@@ -135,6 +138,8 @@ pub struct Runner<'a, K: KeyT, S: Sut<K>> {
     pub fl: Flags,
     pub out: &'a mut ShardWriter,
     pub sid: u64,
+    /// tokens dropped or handed back so far in the current test (C18)
+    pub gone: Vec<u64>,
     pub stats: Stats,
     _p: std::marker::PhantomData<(K, S)>,
 }
@@ -161,7 +166,7 @@ struct Inst<K: KeyT, S: Sut<K>> {
 
 impl<'a, K: KeyT, S: Sut<K>> Runner<'a, K, S> {
     pub fn new(cfg: Value, env: Env, nkeys: u64, fl: Flags, out: &'a mut ShardWriter) -> Self {
-        Runner { cfg, env, uni: (1..=nkeys).collect(), fl, out, sid: 0, stats: Stats::default(), _p: Default::default() }
+        Runner { cfg, env, uni: (1..=nkeys).collect(), fl, out, sid: 0, gone: vec![], stats: Stats::default(), _p: Default::default() }
     }
 
     fn build(&self) -> Option<S> {
@@ -177,7 +182,19 @@ impl<'a, K: KeyT, S: Sut<K>> Runner<'a, K, S> {
         let mut h: Hold<K> = Hold::new();
         let d0 = track::drops_len();
         let _ = track::cb_take();
-        let r = catch_unwind(AssertUnwindSafe(|| qalloc::tracked(|| c.apply(op, &mut h))));
+        let r = catch_unwind(AssertUnwindSafe(|| {
+            qalloc::tracked(|| {
+                if op["op"] == "clone_drop" {
+                    // C18: Clone of keys/values and re-hashing are user code too
+                    let d = c.try_clone();
+                    drop(d);
+                    json!({"t":"Unit"})
+                } else {
+                    c.apply(op, &mut h)
+                }
+            })
+        }));
+        track::fuse_disarm();
         let drops = track::drops_since(d0);
         let cb = track::cb_take();
         let mut ev = op.clone();
@@ -193,6 +210,15 @@ impl<'a, K: KeyT, S: Sut<K>> Runner<'a, K, S> {
             ev["out"] = json!(h.out_toks);
             ev["drops"] = json!(drops);
             ev["cbtok"] = Value::Array(cb.iter().map(|c| json!([c.2, c.3])).collect());
+        }
+        if self.fl.faults {
+            ev["gone_before"] = json!(self.gone);
+            self.gone.extend(drops.iter().copied());
+            self.gone.extend(h.out_toks.iter().copied());
+            let df = qalloc::take_double_frees();
+            if df > 0 {
+                track::anomaly(format!("double-free of {df} node(s)"));
+            }
         }
         // returned objects die here, after the drop log was read
         drop(h);
@@ -283,6 +309,13 @@ impl<'a, K: KeyT, S: Sut<K>> Runner<'a, K, S> {
             let r = catch_unwind(AssertUnwindSafe(|| qalloc::tracked(|| drop(c))));
             let mut ev = json!({"op":"drop","panic": r.is_err(), "chain": true, "obs": {}});
             ev["drops"] = json!(track::drops_since(d0));
+            if self.fl.faults {
+                ev["gone_before"] = json!(self.gone);
+                let df = qalloc::take_double_frees();
+                if df > 0 {
+                    track::anomaly(format!("double-free of {df} node(s)"));
+                }
+            }
             ev["live"] = json!(qalloc::live());
             ev["anomalies"] = json!(track::take_anomalies());
             let _ = ids;
@@ -343,6 +376,63 @@ impl<'a, K: KeyT, S: Sut<K>> Runner<'a, K, S> {
             }
             self.finish_event(ev, &c, &mut ids, false);
             self.end_test(c, &mut ids);
+        }
+    }
+
+    /// C18: for one reachable state and every operation: count the calls into user code the operation makes
+    /// (dry run), then for every kind of user code and every i: arm the fuse so that the i-th such call
+    /// panics, run the operation, then keep using the cache (lookups of every key, full observation,
+    /// purge) and finally drop it.
+    pub fn run_fault_state(&mut self, path: &[Value], ops: &[Value], max_per_kind: u64) {
+        self.stats.states += 1;
+        let mut ops: Vec<Value> = ops.to_vec();
+        ops.push(json!({"op":"clone_drop"}));
+        for op in &ops {
+            if op["op"] == "ro" {
+                continue;
+            }
+            // dry run: how many user-code calls of each kind does this operation make here?
+            let Some(mut c) = self.replay(path) else { return };
+            track::fuse_begin(false, 0, 0);
+            let (_, dry_panicked) = self.call(&mut c, op);
+            let (counts, _) = track::fuse_end();
+            let dry: Result<(), ()> = if dry_panicked { Err(()) } else { Ok(()) };
+            let _ = catch_unwind(AssertUnwindSafe(|| drop(c)));
+            if dry.is_err() {
+                continue;
+            }
+            for kind in 1..8u8 {
+                for at in 1..=counts[kind as usize].min(max_per_kind) {
+                    let Some(mut c) = self.replay(path) else { return };
+                    self.stats.tests += 1;
+                    self.gone.clear();
+                    let _ = qalloc::take_double_frees();
+                    let mut ids = AddrIds::new();
+                    self.jump(&c, &mut ids);
+                    // the faulting operation
+                    track::fuse_begin(true, kind, at);
+                    let (mut ev, panicked) = self.call(&mut c, op);
+                    let (_, fired) = track::fuse_end();
+                    ev["fault"] = json!({"kind": track::KIND_NAMES[kind as usize], "at": at, "fired": fired});
+                    if panicked {
+                        self.stats.panics += 1;
+                    }
+                    if fired {
+                        self.stats.nontrivial += 1;
+                    }
+                    self.finish_event(ev, &c, &mut ids, false);
+                    // keep using the cache: every key, then purge
+                    let mut probes: Vec<Value> = self.uni.iter().map(|&k| json!({"op":"get","k":k})).collect();
+                    probes.push(json!({"op":"put","k": self.uni[0], "v": 1}));
+                    probes.push(json!({"op":"purge"}));
+                    for p in &probes {
+                        let (mut ev, _) = self.call(&mut c, p);
+                        ev["probe"] = json!(true);
+                        self.finish_event(ev, &c, &mut ids, true);
+                    }
+                    self.end_test(c, &mut ids);
+                }
+            }
         }
     }
 
@@ -503,7 +593,11 @@ pub fn run_driver<K: KeyT, S: Sut<K>>(
             }
             let path = v["path"].as_array().cloned().unwrap_or_default();
             r.sid += 1;
-            r.run_state(&path, &ops);
+            if r.fl.faults {
+                r.run_fault_state(&path, &ops, 24);
+            } else {
+                r.run_state(&path, &ops);
+            }
         } else if l.starts_with('{') {
             if let Ok(v) = serde_json::from_str::<Value>(l) {
                 if let Some(h) = v.get("hist").and_then(|h| h.as_array()) {
